@@ -157,6 +157,37 @@ let status_of = function A ":eof" -> SEof | A ":fail" -> SFail | x -> failwith (
 let sink_sx (k : sink) (rest : sx list) =
   L ([sb k.k_acc; si (int_of_nat k.k_calls); si (int_of_nat k.k_fails)] @ rest)
 
+let opt_nat_of = function A ":none" -> None | x -> Some (nat_of x)
+
+let key_sx = function
+  | KNative k -> L [A ":native"; sb k]
+  | KPlugin (n, d) -> L [A ":plugin"; sb n; sb d]
+  | KSsh b -> L [A ":ssh"; sb b]
+let kf_sx = function
+  | KfOk ks -> L [A ":ok"; L (List.map key_sx ks)]
+  | KfErrLine n -> L [A ":errline"; si (int_of_nat n)]
+  | KfErrNoKeys -> A ":nokeys"
+  | KfErrRead -> A ":read"
+  | KfPanic n -> L [A ":panic"; si (int_of_nat n)]
+
+let ui_of = function
+  | L [m; v; c] ->
+      { ui_msg = (match m with A ":nil" -> None | A ":ok" -> Some true | _ -> Some false);
+        ui_value = (match v with A ":nil" -> None | A ":fail" -> Some None | L [A ":some"; x] -> Some (Some (bytes_of x)) | _ -> failwith "ui value");
+        ui_confirm = (match c with A ":nil" -> None | A ":fail" -> Some None | A ":yes" -> Some (Some true) | A ":no" -> Some (Some false) | _ -> failwith "ui confirm") }
+  | x -> failwith ("ui expected: " ^ show x)
+let cresult_sx f = function
+  | CROk a -> L (A ":ok" :: f a)
+  | CRIncorrect -> A ":incorrect"
+  | CRPluginError t -> L [A ":plugin-error"; sb t]
+  | CRFatal -> A ":fatal"
+
+let fstate_of = function A ":absent" -> FAbsent | L [A ":content"; b] -> FContent (bytes_of b) | x -> failwith ("fstate: " ^ show x)
+let fstate_sx = function FAbsent -> A ":absent" | FContent b -> L [A ":content"; sb b]
+let dev_of = function
+  | L [c; cap; cl] -> { d_creatable = bool_of c; d_capacity = opt_nat_of cap; d_close_ok = bool_of cl }
+  | x -> failwith ("dev: " ^ show x)
+
 let cs = ref (nat_of_int 65536)
 
 (* ---------- operations ---------- *)
@@ -253,6 +284,51 @@ let run (op : string) (args : sx list) : sx =
   | "unwrap", [i; ss] ->
       let (r, w) = unwrap oracle (identity_of i) (list_of stanza_of ss) in
       L [res_sx (fun k -> [sb k]) r; L (List.map (fun x -> si (int_of_n x)) w)]
+  (* key files *)
+  | "keyfile", [kind; text] ->
+      let t = bytes_of text in
+      kf_sx (match sym_of kind with
+        | ":lib-id" -> parse_identities t
+        | ":lib-rcpt" -> parse_recipients t
+        | ":cli-id" -> cli_parse_identities t
+        | ":cli-rcpt" ->
+            cli_parse_recipients
+              (fun l -> ask_opt "ssh_parse" [sb l])
+              (fun l -> bool_of (ask "ssh_key_type_ok" [sb l])) t
+        | k -> failwith ("keyfile kind " ^ k))
+  | "scan_lines", [text] -> L (List.map sb (scan_lines (bytes_of text)))
+  (* plugin client *)
+  | "plugin_recipient", [u; as_id; enc; grease; fk; out] ->
+      let (sent, r) = recipient_client (ui_of u) (bool_of as_id) (bytes_of enc) (bytes_of grease) (bytes_of fk) (bytes_of out) in
+      L [sb (transcript sent); cresult_sx (fun (ss, labels) -> [L (List.map stanza_sx ss); L (List.map sb labels)]) r]
+  | "plugin_identity", [u; enc; grease; ss; out] ->
+      let (sent, r) = identity_client (ui_of u) (bytes_of enc) (bytes_of grease) (list_of stanza_of ss) (bytes_of out) in
+      L [sb (transcript sent); cresult_sx (fun k -> [sb k]) r]
+  | "atoi_zero", [s] -> (match atoi_zero (bytes_of s) with None -> A ":error" | Some b -> sbool b)
+  (* encrypted SSH identity: a history of calls *)
+  | "sshenc", [ty; blob; calls] ->
+      let open_pem p = match ask "open_pem" [sb p] with
+        | A ":none" -> None
+        | L [A ":some"; t; b; i] -> Some { k_type = bytes_of t; k_blob = bytes_of b; k_ident = identity_of i }
+        | x -> failwith ("open_pem answer: " ^ show x) in
+      let st = ref (fresh (bytes_of ty) (bytes_of blob)) in
+      L (List.map (fun c -> match c with
+          | L [ss; ans] ->
+              let a = (match ans with A ":fail" -> CbFail | L [A ":pass"; p] -> CbPass (bytes_of p) | x -> failwith ("answer: " ^ show x)) in
+              let ((r, prompted), st') = enc_unwrap oracle open_pem !st (list_of stanza_of ss) a in
+              st := st';
+              L [res_sx (fun k -> [sb k]) r; sbool prompted]
+          | x -> failwith ("call: " ^ show x)) (match calls with L l -> l | _ -> failwith "calls"))
+  (* CLI delivery logic *)
+  | "cli_decrypt", [prev; d; l] ->
+      let lib = (match l with A ":refused" -> LdRefused | L [A ":plain"; p] -> LdPlain (bytes_of p) | L [A ":fail"; q] -> LdFail (bytes_of q) | x -> failwith (show x)) in
+      let (ok, f) = decrypt_cli (fstate_of prev) (dev_of d) lib in L [sbool ok; fstate_sx f]
+  | "cli_encrypt", [prev; d; l] ->
+      let lib = (match l with A ":refused" -> LeRefused | L [A ":bytes"; b] -> LeBytes (bytes_of b) | x -> failwith (show x)) in
+      let (ok, f) = encrypt_cli (fstate_of prev) (dev_of d) lib in L [sbool ok; fstate_sx f]
+  | "cli_keygen", [prev; d; k] ->
+      let ((ok, f), mode) = keygen_cli (fstate_of prev) (dev_of d) (bytes_of k) in
+      L [sbool ok; fstate_sx f; (match mode with None -> A ":none" | Some m -> si (int_of_n m))]
   | "label_rule", [ls] -> sbool (label_rule (list_of (list_of bytes_of) ls))
   | _ -> failwith ("unknown op or bad arity: " ^ op)
 
